@@ -482,9 +482,9 @@ CHECKS['C17'] = dict(
     rule='evaluation = one call of qurl_decode / qbase64_decode / qhex_decode / qparse_queries / qconfig_parse_str / qconfig_parse_file / qaconf parse on an input in an exactly-sized heap buffer (file parsers: memfd or scratch file) '
          'under ASan+UBSan with a 2 s CPU budget, allocation-count budget (20000; INI parser 4000+|input|/4) and live-bytes budget 64*|input|+64 MiB; in-place decoders additionally: returned length <= input length and NUL at that length. '
          'Inputs: (a) every string up to length L (quick 5, thorough 7; hex L+1, INI file form L-1) over the significant bytes of each format; (b) generated INI / Apache-style documents (refs/gen_conf.py) and random decoder inputs, mutated: truncate, duplicate, delete, bit flips, '
-         'inserted quotes/brackets/escapes, trailing backslash, 4095/4096/9000-byte lines, self- and mutually-referential ${..}, hostile @INCLUDE (missing, empty, over-long, and blank-padded lines of 3000-6000 bytes, concentrated on 4078..4101, that name an existing file). ${!cmd} is neutralised by a popen interposer. distinct = distinct inputs.',
+         'inserted quotes/brackets/escapes, trailing backslash, 4095/4096/9000-byte lines, self- and mutually-referential ${..}, hostile @INCLUDE (missing, empty, over-long, and blank-padded lines of 3000-6000 bytes, concentrated on 4078..4101, that name an existing file), 200-20000 unclosed section tags in a row (Apache-style documents). ${!cmd} is neutralised by a popen interposer. distinct = distinct inputs.',
     require=['inputs:qurl_decode', 'inputs:qbase64_decode', 'inputs:qhex_decode', 'inputs:qparse_queries', 'inputs:qconfig_parse_str', 'inputs:qconfig_parse_file', 'inputs:qaconf_parse',
-             'mutated_documents', 'long_include_lines_naming_an_existing_file', 'branch:url_escape_at_end', 'branch:hex_odd_length', 'branch:apache_unclosed_quote', 'branch:apache_unclosed_section', 'branch:ini_cyclic_reference', 'branch:ini_include',
+             'mutated_documents', 'long_include_lines_naming_an_existing_file', 'deeply_nested_section_documents', 'branch:url_escape_at_end', 'branch:hex_odd_length', 'branch:apache_unclosed_quote', 'branch:apache_unclosed_section', 'branch:ini_cyclic_reference', 'branch:ini_include',
              'results_delivered', 'errors_reported'],
     assumptions=['gcc 12 ASan/UBSan; uninitialised reads are only visible to the valgrind job of the thorough tier',
                  '@INCLUDE cycles are not generated (the statement lists recursive ${variables}, not recursive files)',
